@@ -88,7 +88,8 @@ Print Assumptions cssparse_lexer_tok_in_lex.
        EAtRule:  ws? at-keyword (ws? prelude-token)* [ws? ';']
        EBeginAtRule: ws? at-keyword (ws? prelude-token)* ws? '{'                    EEndAtRule:  ws? '}'
        EUTok:    a token inside the block of an unknown at-rule
-       EComment: ws? comment          EToken: ws? CDO | ws? CDC
+       EComment: ws? comment          EToken: ws? CDO | ws? CDC          ESemi: ws? ';'  (a stray semicolon in a
+                 declaration block)
    where ws? is a gap (ws_t): any sequence of Whitespace and Comment tokens inside a block, Whitespace only at the top
    level (there a comment is a unit of its own),
    that nest properly (evs_ok over the stack of open blocks - ruleset, rule block of @media / @supports / @layer /
@@ -108,7 +109,7 @@ Print Assumptions cssparse_lexer_tok_in_lex.
    ';' '}' ')' ']' at bracket level 0 - raw_ok / raw_lv; the first token of a top-level selector is none of CDO,
    CDC, at-keyword, custom-property name - sel_first; the first token of a nested selector is an identifier, a hash,
    ':', '[' or a delimiter other than '*' - nest_first)
-   yields exactly one unit per event, in order:
+   yields exactly one unit per event - none for a stray semicolon, which the parser skips (units) -, in order:
    - BeginRuleset with Values() = expected_sel: the selector tokens in order with a single space token exactly where
      the source has a separating gap between two tokens neither of which is a combinator  , > + ~  and that are not
      inside an attribute selector [ ]; a separating gap is one with whitespace for a top-level selector (a comment
@@ -135,10 +136,10 @@ Print Assumptions cssparse_lexer_tok_in_lex.
      suite); rulesets inside such a block are in the grammar.
    - the space that a dropped comment produces between two value tokens or two tokens of a nested selector is a token
      that is not in the input (finding wellformed-comment-space); the statement says exactly where it appears.
-   Not in the statement: stray ';' between declarations (the parser skips them without a unit). *)
+   Nothing of a well-formed stylesheet is outside the statement except what the named findings exclude. *)
 Theorem cssparse_wellformed : forall d evs w,
   css_lex d = LexDone (concat (map ev_toks evs) ++ optws w) -> evs_ok [] evs -> iscm w = false ->
-  exists tr, parse_run (length evs + 1) (new_parser d false) = POk tr /\
-    map view tr = map ev_unit evs ++ [(GError, TError, [], [])] /\ no_err tr.
+  exists tr, parse_run (length (units evs) + 1) (new_parser d false) = POk tr /\
+    map view tr = units evs ++ [(GError, TError, [], [])] /\ no_err tr.
 Proof. exact cssparse_wellformed_proof. Qed.
 Print Assumptions cssparse_wellformed.
